@@ -13,7 +13,7 @@ pub use magics::rook_attacks;
 pub use pawns::pawn_attacks;
 
 #[cfg(jgilchrist_tcheran_verif)]
-pub use magics::{verif_table_index_bishop, verif_table_index_rook, VERIF_TABLE_LEN};
+pub use magics::{verif_table_index_bishop, verif_table_index_rook, verif_table_len};
 
 pub fn init() {
     magics::init();
